@@ -369,6 +369,12 @@ def netspec(draw, prof):
             nd["ps_threshold"] = draw(st.integers(1, 3))
         else:
             nd["servers"] = servers(draw, prof, [prof.node_kinds[i]] if prof.node_kinds else server_kinds)
+            twin = [x for x in nodes if x["servers"]["kind"] in ("schedule", "slotted") and not x.get("ps")]
+            if twin and nd["servers"]["kind"] in ("schedule", "slotted") and _flag(draw, 0.3):
+                # the same timetable object at two nodes (number_of_servers=[rota, rota]): their shift changes coincide
+                import copy as _copy
+                nd["servers"] = _copy.deepcopy(twin[0]["servers"])
+                nd["same_schedule_object"] = True
         nd["cap"] = "inf"
         if on["capacity"] and _flag(draw, 0.7):
             nd["cap"] = draw(st.sampled_from(prof.caps))
